@@ -43,7 +43,7 @@ def run(c):
     binary = c.go_build(HARNESS)
     if binary:
         gen(c, binary)
-    c.prove("SH.Props.C28", extra_files=["SH/Model/PromSyntax.lean", "SH/Gen/C28.lean"])
+    c.prove("SH.Props.C28", extra_files=["SH/Model/PromSyntax.lean", "SH/Lemmas/PromSyntaxSound.lean", "SH/Gen/C28.lean"])
     drv = c.driver(DRIVER)
     if binary and drv:
         rc, out = c.go_run(binary, ["-mode=corpus", f"-arg={CORPUS}"])
